@@ -93,8 +93,11 @@ Fixpoint compile_rules (l : list rawrule) : option (list (rule cop)) :=
   end.
 
 (* the whole transaction of a case, as the theorems of SetvarProofs talk about it *)
-Definition run_model (args hdrs : list (bytes * bytes)) (rs : list (rule cop)) : st :=
-  eval_tx cop_eval {| e_args := args; e_hdrs := hdrs |} rs st_init.
+Definition mk_env (r : list (bytes * bytes) * list (bytes * bytes)) : env :=
+  {| e_args := fst r; e_hdrs := snd r |}.
+Definition run_model (priors : list (list (bytes * bytes) * list (bytes * bytes)))
+           (args hdrs : list (bytes * bytes)) (rs : list (rule cop)) : st :=
+  eval_nth_tx cop_eval rs (map mk_env priors) {| e_args := args; e_hdrs := hdrs |}.
 
 (* ---- observations ---- *)
 Inductive oevent :=
@@ -171,7 +174,8 @@ Definition mvs_eqb (m : list (bytes * bytes)) (obs : list (bytes * list bytes)) 
   forallb (fun kv => list_eqb bytes_eqb (sv_pairs_get m (fst kv)) (snd kv)) obs.
 
 Inductive case :=
-  | CRun (ordered : bool) (args hdrs : list (bytes * bytes)) (rules : list rawrule)
+  | CRun (ordered : bool) (priors : list (list (bytes * bytes) * list (bytes * bytes)))
+         (args hdrs : list (bytes * bytes)) (rules : list rawrule)
          (otx : list (bytes * list bytes)) (ohs omv omvn : bytes) (omvs : list (bytes * list bytes))
          (oint : Z) (omatched : list omr) (otrace : list oevent)
   | CInit (raw : bytes) (ook orm : bool) (okey : list otoken) (ohasval : bool) (oval : list otoken)
@@ -181,11 +185,11 @@ Inductive case :=
 
 Definition ok (c : case) : bool :=
   match c with
-  | CRun ordered args hdrs rules otx ohs omv omvn omvs oint omatched otrace =>
+  | CRun ordered priors args hdrs rules otx ohs omv omvn omvs oint omatched otrace =>
     match compile_rules rules with
     | None => false
     | Some rs =>
-      let s := run_model args hdrs rs in
+      let s := run_model priors args hdrs rs in
       txmap_eqb (s_tx s) otx && bytes_eqb (s_hs s) ohs &&
       Z.eqb (match s_interrupted s with Some i => i | None => 0%Z end) oint &&
       if ordered then
